@@ -104,7 +104,15 @@ type Ctx struct {
 	Only    int    // >= 0: run just this case (debugging)
 	Verbose bool
 	prog    *os.File
+
+	progCalls     int
+	MapsMax       int // largest number of memory mappings of this worker seen at a case boundary
+	MapsReclaimed int // mappings left behind by finished cases (KF-01) that were unmapped
 }
+
+// ReclaimHook, set by the engine package's users, unmaps mappings leaked by
+// finished cases under the given scratch root (see eng.ReclaimLeakedMaps).
+var ReclaimHook func(root string) (total, reclaimed int)
 
 // Thorough reports whether the thorough tier runs.
 func (c *Ctx) Thorough() bool { return c.Tier == "thorough" }
@@ -127,6 +135,17 @@ func (c *Ctx) Mine(idx int) bool {
 // Progress records what is about to run, so that the supervisor can
 // attribute a process death to it.
 func (c *Ctx) Progress(idx int, body interface{}) {
+	c.progCalls++
+	if c.progCalls%16 == 1 && c.Scratch != "" {
+		total, n := 0, 0
+		if ReclaimHook != nil {
+			total, n = ReclaimHook(c.Scratch)
+		}
+		c.MapsReclaimed += n
+		if total > c.MapsMax {
+			c.MapsMax = total
+		}
+	}
 	if c.prog == nil {
 		return
 	}
